@@ -227,6 +227,7 @@ func buildInlinedView(p *Prog) (map[string][]byte, *inlineStats) {
 				if !ok || fd.Body == nil {
 					continue
 				}
+				labelLoopBranches(fd)
 				fd.Body.List = in.processList(fd.Body.List, nil, nil)
 			}
 			files = append(files, &fileState{orig: f, clone: nf, imports: in.imports, changed: in.changed})
@@ -2292,4 +2293,83 @@ func (in *inliner) isTypeSwitchSymbol(fd *ast.FuncDecl, id *ast.Ident) bool {
 		return !found
 	})
 	return found
+}
+
+// labelLoopBranches gives every unlabeled break / continue that leaves or continues a for / range loop the label of
+// that loop (a fresh label if the loop has none). An if statement that is threaded into an inlined body then keeps
+// its meaning although the body is wrapped in a switch statement and may contain loops of its own.
+func labelLoopBranches(fd *ast.FuncDecl) {
+	n := 0
+	type loopCtx struct {
+		name string
+		used bool
+	}
+	var stmt func(s ast.Stmt, loop *loopCtx, breakToLoop bool) ast.Stmt
+	list := func(l []ast.Stmt, loop *loopCtx, breakToLoop bool) {
+		for i, s := range l {
+			l[i] = stmt(s, loop, breakToLoop)
+		}
+	}
+	loopBody := func(s ast.Stmt, body *ast.BlockStmt, label string) ast.Stmt {
+		ctx := &loopCtx{name: label}
+		if label == "" {
+			n++
+			ctx.name = fmt.Sprintf("loop_L%d", n)
+		}
+		list(body.List, ctx, true)
+		if label == "" && ctx.used {
+			return &ast.LabeledStmt{Label: ast.NewIdent(ctx.name), Stmt: s}
+		}
+		return s
+	}
+	stmt = func(s ast.Stmt, loop *loopCtx, breakToLoop bool) ast.Stmt {
+		switch x := s.(type) {
+		case *ast.LabeledStmt:
+			switch y := x.Stmt.(type) {
+			case *ast.ForStmt:
+				loopBody(y, y.Body, x.Label.Name)
+			case *ast.RangeStmt:
+				loopBody(y, y.Body, x.Label.Name)
+			default:
+				x.Stmt = stmt(x.Stmt, loop, breakToLoop)
+			}
+		case *ast.ForStmt:
+			return loopBody(x, x.Body, "")
+		case *ast.RangeStmt:
+			return loopBody(x, x.Body, "")
+		case *ast.BlockStmt:
+			list(x.List, loop, breakToLoop)
+		case *ast.IfStmt:
+			list(x.Body.List, loop, breakToLoop)
+			if x.Else != nil {
+				x.Else = stmt(x.Else, loop, breakToLoop)
+			}
+		case *ast.SwitchStmt:
+			for _, cc := range x.Body.List {
+				list(cc.(*ast.CaseClause).Body, loop, false)
+			}
+		case *ast.TypeSwitchStmt:
+			for _, cc := range x.Body.List {
+				list(cc.(*ast.CaseClause).Body, loop, false)
+			}
+		case *ast.SelectStmt:
+			for _, cc := range x.Body.List {
+				list(cc.(*ast.CommClause).Body, loop, false)
+			}
+		case *ast.BranchStmt:
+			if x.Label == nil && loop != nil && ((x.Tok == token.BREAK && breakToLoop) || x.Tok == token.CONTINUE) {
+				x.Label = ast.NewIdent(loop.name)
+				loop.used = true
+			}
+		}
+		return s
+	}
+	list(fd.Body.List, nil, false)
+	// function literals have statement lists of their own
+	ast.Inspect(fd.Body, func(nd ast.Node) bool {
+		if fl, ok := nd.(*ast.FuncLit); ok && fl.Body != nil {
+			list(fl.Body.List, nil, false)
+		}
+		return true
+	})
 }
